@@ -59,7 +59,8 @@ pub mod vproc {
     pub struct ExitStatus { pub ok: Ghost<bool> }
     impl ExitStatus {
         #[verifier::external_body] pub fn success(&self) -> (r: bool) ensures r == self.ok@ { unimplemented!() }
-        #[verifier::external_body] pub fn code(&self) -> Option<i32> { unimplemented!() }
+        // the exit code, None when the process was ended by a signal; success = exit code 0
+        #[verifier::external_body] pub fn code(&self) -> (r: Option<i32>) ensures (r matches Some(c) && c == 0) == self.ok@ { unimplemented!() }
     }
     impl ChildStdin {
         #[verifier::external_body]
@@ -102,7 +103,7 @@ pub mod vproc {
         #[verifier::external_body]
         pub fn status(&mut self, Tracked(w): Tracked<&mut World>) -> (r: Result<ExitStatus, crate::acme_common::error::IoError>)
             ensures !final(w).running, final(w).spawned == old(w).spawned, final(w).runs == old(w).runs,
-                final(self).p == old(self).p
+                final(self).p == old(self).p, r matches Ok(st) ==> final(w).last_exit_ok == st.ok@
         { unimplemented!() }
     }
     }
